@@ -1023,6 +1023,82 @@ pub fn sweep_borrow(prop: &str) -> Vec<Case> {
     cases
 }
 
+/// Pairs of values that compare equal (`==`) but are not identical (0 and -0, a Ref with another
+/// display name, the same inside a list / dict / grid), stored one over the other through every
+/// entry-updating call: an update must store what it was given, not what compares equal to it.
+pub fn sweep_equalish(prop: &str) -> Vec<Case> {
+    let pairs: &[(&str, &str)] = &[
+        ("0", "-0"),
+        ("-0", "0"),
+        ("@r1 \"Old name\"", "@r1 \"New name\""),
+        ("@r1", "@r1 \"Named\""),
+        ("@r1 \"Named\"", "@r1"),
+        ("[@r1 \"a\", 0]", "[@r1 \"b\", -0]"),
+        ("{x:@r1 \"a\" y:0}", "{x:@r1 \"b\" y:-0}"),
+        ("ver:\"3.0\"\nid,v\n@r1 \"a\",0\n", "ver:\"3.0\"\nid,v\n@r1 \"b\",-0\n"),
+        ("ver:\"3.0\"\na\n1\n", "ver:\"2.0\"\na\n1\n"),
+    ];
+    let mut cases = Vec::new();
+    for (a, b) in pairs {
+        for variant in 0..5 {
+            let mut ops = vec![
+                Op::new(0, "haystack_value_from_zinc_string").h(&[0]).s(&[Some(a.as_bytes())]),
+                Op::new(0, "haystack_value_from_zinc_string").h(&[1]).s(&[Some(b.as_bytes())]),
+                Op::new(0, "haystack_value_make_dict").h(&[2]),
+                Op::new(0, "haystack_value_make_list").h(&[3]),
+                Op::new(0, "haystack_value_init").h(&[4]),
+            ];
+            match variant {
+                0 => {
+                    ops.push(Op::new(0, "haystack_value_insert_dict_entry").h(&[2, 0]).s(&[Some(b"k")]));
+                    ops.push(Op::new(0, "haystack_value_insert_dict_entry").h(&[2, 1]).s(&[Some(b"k")]));
+                    ops.push(Op::new(0, "haystack_value_insert_dict_entry").h(&[2, 0]).s(&[Some(b"k")]));
+                    ops.push(Op::new(0, "haystack_value_get_dict_entry").h(&[2, 0]).s(&[Some(b"k")]));
+                    ops.push(Op::new(0, "borrow_read").h(&[0]));
+                }
+                1 => {
+                    ops.push(Op::new(0, "haystack_value_push_list_entry").h(&[3, 0]));
+                    ops.push(Op::new(0, "haystack_value_set_list_entry_at").h(&[3, 1]).n(&[0]));
+                    ops.push(Op::new(0, "haystack_value_get_list_entry_at").h(&[3, 0]).n(&[0]));
+                    ops.push(Op::new(0, "borrow_read").h(&[0]));
+                    ops.push(Op::new(0, "haystack_value_set_list_entry_at").h(&[3, 0]).n(&[0]));
+                }
+                2 => {
+                    // an entry replaced by a borrowed equal entry of another container
+                    ops.push(Op::new(0, "haystack_value_push_list_entry").h(&[3, 1]));
+                    ops.push(Op::new(0, "haystack_value_insert_dict_entry").h(&[2, 0]).s(&[Some(b"k")]));
+                    ops.push(Op::new(0, "haystack_value_get_list_entry_at").h(&[3, 0]).n(&[0]));
+                    ops.push(Op::new(0, "haystack_value_insert_dict_entry").h(&[2, BORROW_BASE]).s(&[Some(b"k")]));
+                }
+                3 => {
+                    // as rows and meta of a grid, and as the result handle of accessors
+                    ops.push(Op::new(0, "haystack_value_insert_dict_entry").h(&[2, 0]).s(&[Some(b"v")]));
+                    ops.push(Op::new(0, "haystack_value_push_list_entry").h(&[3, 2]));
+                    ops.push(Op::new(0, "haystack_value_insert_dict_entry").h(&[2, 1]).s(&[Some(b"v")]));
+                    ops.push(Op::new(0, "haystack_value_push_list_entry").h(&[3, 2]));
+                    ops.push(Op::new(0, "haystack_value_make_grid_from_rows_with_meta").h(&[5, 3, 2]));
+                    ops.push(Op::new(0, "haystack_value_get_grid_row_at").h(&[5, 4]).n(&[0]));
+                    ops.push(Op::new(0, "haystack_value_get_grid_row_at").h(&[5, 4]).n(&[1]));
+                    ops.push(Op::new(0, "haystack_value_to_zinc_string").h(&[5, 0]));
+                }
+                _ => {
+                    // result handles that hold the equal value already
+                    ops.push(Op::new(0, "haystack_value_insert_dict_entry").h(&[2, 0]).s(&[Some(b"k")]));
+                    ops.push(Op::new(0, "haystack_value_get_dict_keys").h(&[2, 1]));
+                    ops.push(Op::new(0, "haystack_value_push_list_entry").h(&[3, 2]));
+                    ops.push(Op::new(0, "haystack_value_make_grid_from_rows").h(&[5, 3]));
+                    ops.push(Op::new(0, "haystack_value_get_grid_row_at").h(&[5, 2]).n(&[0]));
+                }
+            }
+            ops.push(Op::new(0, "haystack_value_to_zinc_string").h(&[2, 1]));
+            ops.push(Op::new(0, "haystack_value_to_json_string").h(&[3, 2]));
+            ops.push(Op::new(0, "last_error_message").h(&[3]));
+            cases.push(history_case(prop, ops, format!("sweep:equalish {a} / {b} variant={variant}")));
+        }
+    }
+    cases
+}
+
 /// Lists and dicts grown to every size around the points where their storage is reallocated or
 /// split (Vec capacities 4, 8, 16, 32, 64; B-tree nodes of 11 keys), then every entry operation
 /// at the edges of that size, including a borrowed entry of the container given back to it.
@@ -1282,7 +1358,7 @@ impl CApi {
     }
 }
 
-const SWEEPS: &[&str] = &["sweep:null", "sweep:kind", "sweep:index", "sweep:errslot", "sweep:borrow", "sweep:zone", "sweep:hostile", "sweep:size"];
+const SWEEPS: &[&str] = &["sweep:null", "sweep:kind", "sweep:index", "sweep:errslot", "sweep:borrow", "sweep:zone", "sweep:hostile", "sweep:size", "sweep:equalish"];
 /// sweeps are split into this many units so that they spread over the worker processes
 const SWEEP_PARTS: u64 = 8;
 
@@ -1319,6 +1395,7 @@ impl Engine for CApi {
                 "sweep:zone" => sweep_zone(prop),
                 "sweep:hostile" => sweep_hostile(prop),
                 "sweep:size" => sweep_size(prop),
+                "sweep:equalish" => sweep_equalish(prop),
                 _ => sweep_errslot(prop),
             };
             return Box::new(all.into_iter().enumerate().filter(move |(i, _)| *i as u64 % SWEEP_PARTS == part).map(|(_, c)| c));
